@@ -212,14 +212,48 @@ def rule_R3(chk, repo, rid='C05.R3'):
                '', key=f'{rid}|{fi.qual}|{e[1]}|{norm(e[2])[:60]}')
     # counter coupling: `l` advances exactly once per appended layer, after its use
     lvar = None
+    store = None
     for n in ast.walk(loop):
         if isinstance(n, ast.Assign) and any(isinstance(t, ast.Subscript) and norm(t.value) == 'nid_map'
                                              for t in n.targets) and isinstance(n.value, ast.Tuple):
+            store = n
+            second = n.value.elts[1]
             if isinstance(n.value.elts[0], ast.Name):
                 lvar = n.value.elts[0].id
-                second = n.value.elts[1]
+    if store is None:
+        raise AnalysisError('from_opgraph: nid_map store `(bond, index)` not found')
     if lvar is None:
-        raise AnalysisError('from_opgraph: nid_map store `(l, i)` not found')
+        # bond index written as len(<list>) + c: the list must grow once per layer; the value must be the layer index
+        from ..affine import try_affine
+        first = store.value.elts[0]
+        a = try_affine(first)
+        lens = [s_ for s_ in (a.syms() if a is not None else []) if s_.startswith('len(')]
+        ok_b, detail = False, f'`{norm(first)}` is not of the form len(<list>) + c'
+        if a is not None and len(lens) == 1 and a.coeff(lens[0]) == 1 and a.syms() == {lens[0]}:
+            X = lens[0][4:-1]
+            def appends(stmts):
+                return [c_ for s_ in stmts for c_ in ast.walk(s_) if isinstance(c_, ast.Call) and
+                        isinstance(c_.func, ast.Attribute) and c_.func.attr == 'append' and norm(c_.func.value) == X]
+            before_loop = [s_ for s_ in fi.node.body if s_.lineno < loop.lineno]
+            n0 = len(appends(before_loop))
+            for s_ in before_loop:
+                if isinstance(s_, ast.Assign) and norm(s_.targets[0]) == X and isinstance(s_.value, ast.List):
+                    n0 += len(s_.value.elts)
+            pos_store = [k_ for k_, s_ in enumerate(loop.body) if any(x is store for x in ast.walk(s_))][0]
+            in_loop = appends(loop.body)
+            k_before = len(appends(loop.body[:pos_store]))
+            want = 1 - n0 - k_before
+            ok_b = len(in_loop) == 1 and a.c == want
+            detail = (f'`{norm(first)}`: `{X}` has {n0} element(s) before the loop and grows {len(in_loop)}x per layer '
+                      f'({k_before} before the store); the layer index needs the offset {want:+d}')
+        chk.ob(rid, where(repo, fi, store), 'nid_map records the bond index of the layer (first layer after the start node is '
+               'bond 1)', ok_b, detail, key=f'{rid}|{fi.qual}|bond-index')
+        chk.ob(rid, where(repo, fi, fi.node), 'start node is mapped to (0, 0)',
+               any(isinstance(n_, ast.Assign) and any(isinstance(t, ast.Subscript) and norm(t.value) == 'nid_map' and
+                   'nid_terminal[0]' in norm(t.slice) for t in n_.targets) and norm(n_.value) == '(0, 0)'
+                   for n_ in ast.walk(fi.node)), '', key=f'{rid}|{fi.qual}|start')
+        chk.floor(rid, len(uses), 5)
+        return
     incs = [(pos, n) for pos, s in enumerate(loop.body) for n in ast.walk(s)
             if isinstance(n, ast.AugAssign) and isinstance(n.target, ast.Name) and n.target.id == lvar]
     use_pos = [e[0] for e in uses if e[1] == 'use:nid_map']
